@@ -938,6 +938,15 @@ func exec(op string) string {
 		name := common.ParseNameText(a["name"])
 		pfx := a["pfx"] == "1"
 		return "mem=" + errStr(h.mem.Remove(name, pfx)) + " bolt=" + errStr(h.bolt.Remove(name, pfx))
+	case "cput":
+		// the consuming node publishes a version of the object itself: it lands in ITS OWN store
+		name := common.ParseNameText(a["name"])
+		ver := common.Atou(a["ver"])
+		content := makeContent(common.Atou(a["seed"]), common.Atoi(a["size"]))
+		if _, err := h.cons.Produce(object.ProduceArgs{Name: name.Clone(), Content: enc.Wire{content}, Version: &ver}); err != nil {
+			return "err"
+		}
+		return "ok"
 	case "consume":
 		extra := 0
 		if a["cap"] != "" {
